@@ -24,7 +24,7 @@ func MainC14(prop, tier string) int {
 		r.Floor("sessions_ended", 1)
 		return r.Finish()
 	}
-	r.Fanout("c14", vk.NumWorkers(), 40*time.Minute)
+	r.Fanout("c14", vk.NumWorkers(), 90*time.Minute)
 	r.Floor("sessions_ended", 40)
 	r.Floor("mode_ledgers_checked", 40)
 	return r.Finish()
@@ -78,7 +78,7 @@ func workerC14(r *vk.Run, w, n int, args []string) {
 	rng := rand.New(rand.NewSource(r.Seed*48271 + int64(w)*157 + 8))
 	sessions := 480
 	if !r.Quick() {
-		sessions = 2000
+		sessions = 12000
 	}
 	per := sessions/n + 1
 	for i := 0; i < per; i++ {
